@@ -492,6 +492,21 @@ func (p *c18) Init(tier string, seed int64) {
 			}(g)
 		}
 		wg.Wait()
+		// ... and an environment written down as a struct literal (a loader and nothing else: no function, filter
+		// or test map, no visitor), used by eight goroutines from its first call on
+		lit := &stick.Env{Loader: co.Loader}
+		for g := 0; g < 8; g++ {
+			wg.Add(1)
+			go func(g int) {
+				defer wg.Done()
+				defer func() { recover() }()
+				off := g * len(p.names) / 8
+				for k := range p.names {
+					c18do(lit, (k+g)%2, p.names[(off+k)%len(p.names)], c18copyCtx(c18ctxAt(g%len(c18Ctx))))
+				}
+			}(g)
+		}
+		wg.Wait()
 	}
 	// sequential result table: every template on a fresh, identically configured pair of environments of its own
 	// ("alone" means that nothing else has ever been parsed or run there)
